@@ -18,6 +18,16 @@ RULE = ("scripted loopback TCP peers against the real socks5.Scanner.Scan with 8
         "non-trivial = the connection was established; distinct by (class, reply bytes, script shape)")
 
 SLACK_MS = 60          # scheduling slack granted to a duration (the machine is shared)
+LOW_JITTER_MS = 10     # a run whose 5 ms sleeps never overshot by more than this is a quiet window: its durations count
+EXTRA_SLACK = [0]      # set by settle() to ask "does the duration exceed the model by MUCH more than the slack?"
+
+
+def jitter_slack(o):
+    """the harness measures, while each case runs, by how much a goroutine sleeping 5 ms overshoots (jitter_ms); a probe
+    has a handful of such wake-ups (timer, netpoll, result hand-over), so the duration comparison with the MODEL grants
+    three of them on top of the fixed slack -- nothing on a quiet machine, the starvation delay on a loaded one.  The
+    property's own bound keeps its fixed slack."""
+    return int(3 * min(o.get("jitter_ms") or 0, 300))
 CODES = {1: "outcome class differs from the model", 2: "the peer received other bytes than the model's greeting",
          3: "the record's address/port/version differ", 4: "Scan took longer than the model's logical duration + slack",
          105: "(info) Scan returned earlier than the model's logical duration"}
@@ -166,7 +176,7 @@ def case_term(o):
             "c_dur := %s; c_slack := %d; c_greet := %s; c_rec := %s |}") % (
         z(o["tdial"]), z(o["tdata"]), "None" if o["cancel"] < 0 else "Some %s" % z(o["cancel"]),
         verif.coq_bytes(ip_bytes(o["ip"])), z(o["port"]), script_term(o), z(o["obs"]), z(int(o["dur_ms"])),
-        SLACK_MS, greet, rec)
+        SLACK_MS + jitter_slack(o) + EXTRA_SLACK[0], greet, rec)
 
 
 def case_file(rows):
@@ -220,12 +230,12 @@ def evaluate(ctx, rows, tag, nshards):
     return bad
 
 
-def rerun(ctx, rows, tag):
+def rerun(ctx, rows, tag, par=8):
     """run the given cases again on the real code, few at a time"""
     path = os.path.join(ctx.work, "%s-in.json" % tag)
     with open(path, "w") as f:
         json.dump(rows, f)
-    ok, _ = ctx.harness_run("c09", ["-out", "%s.jsonl" % tag, "-replay", path, "-par", 8], timeout=600)
+    ok, _ = ctx.harness_run("c09", ["-out", "%s.jsonl" % tag, "-replay", path, "-par", par], timeout=600)
     if not ok:
         return None
     return ctx.read_jsonl(os.path.join(ctx.work, "%s.jsonl" % tag))
@@ -374,29 +384,134 @@ def report(ctx, o, why):
     ctx.findings.append({"key": finding_key(o), "what": why, "replay": path})
 
 
+def stretch(o, k):
+    """the same case with its whole timing multiplied by k"""
+    c = json.loads(json.dumps(o))
+    base = {"tdial": o["tdial"], "tdata": o["tdata"], "cancel": o["cancel"],
+            "delays": [a.get("delay", 0) for a in o["actions"] or []], "class": o["class"]}
+    c["tdial"], c["tdata"] = base["tdial"] * k, base["tdata"] * k
+    c["cancel"] = base["cancel"] * k if base["cancel"] > 0 else base["cancel"]
+    for a, d in zip(c["actions"] or [], base["delays"]):
+        a["delay"] = d * k
+    c["class"] = "%s [timing x%d]" % (base["class"], k)
+    return c
+
+
+def time_only(o):
+    """the property fails on this observation only because of a measured duration (never for a HANG)"""
+    why = spec_on_impl(o)
+    return bool(why) and o["obs"] != 11 and (" took " in why)
+
+
 def settle(ctx, rows, tag):
     """Judge rows: property on the implementation + model comparison, re-running cases whose only problem can be
-    scheduling noise.  Returns (rows after re-runs, {index: hard codes})."""
+    scheduling noise.  Returns (rows after re-runs, {index: hard codes}, number of early returns)."""
+    import time
     nshards = 8 if len(rows) < 3000 else 64
     bad = evaluate(ctx, rows, tag, nshards)
-    for attempt in range(2):
-        idxs = sorted(i for i in set(bad) | {i for i, o in enumerate(rows) if spec_on_impl(o)}
-                      if [c for c in bad.get(i, []) if c != 105] or spec_on_impl(rows[i]))
-        if not idxs or len(idxs) > 400:
-            break
-        again = rerun(ctx, [rows[i] for i in idxs], "%s_retry%d" % (tag, attempt))
+
+    def hard(i):
+        return [c for c in bad.get(i, []) if c != 105]
+
+    def redo(idxs, name, par):
+        again = rerun(ctx, [rows[i] for i in idxs], name, par)
         if again is None or len(again) != len(idxs):
-            break
+            return False
         for i, o in zip(idxs, again):
             rows[i] = o
-        sub = evaluate(ctx, again, "%s_retry%d" % (tag, attempt), 4)
+        sub = evaluate(ctx, again, name, 4)
         for k, i in enumerate(idxs):
             if k in sub:
                 bad[i] = sub[k]
             else:
                 bad.pop(i, None)
-    return rows, {i: [c for c in cs if c != 105] for i, cs in bad.items() if [c for c in cs if c != 105]}, \
-        sum(1 for cs in bad.values() if 105 in cs)
+        return True
+
+    for attempt in range(2):
+        idxs = sorted(i for i in set(bad) | {i for i, o in enumerate(rows) if spec_on_impl(o)}
+                      if hard(i) or spec_on_impl(rows[i]))
+        if not idxs or len(idxs) > 400:
+            break
+        if not redo(idxs, "%s_retry%d" % (tag, attempt), 8):
+            break
+    # Starvation can also change an OUTCOME: with 80-160 ms timeouts a starved probe may not see a reply in time and end
+    # with a timeout.  Cases that still disagree, ended with a timeout and ran while the scheduling jitter was high are run
+    # again with their whole timing (timeouts, delays, cancellation) stretched x4, then x8: the model is invariant under
+    # scaling of time, the starvation delay is not.  The stretched observation replaces the original one (class suffix
+    # " [timing xK]") and is judged like any other.
+    def starved(i):
+        o = rows[i]
+        return (o.get("jitter_ms") or 0) > LOW_JITTER_MS and (o["obs"] in (2, 6) or (o.get("e2e") and o["obs"] == 1))
+
+    stretch_base = {}
+    for k in (4, 8):
+        sus = [i for i in sorted(set(bad) | {i for i, o in enumerate(rows) if spec_on_impl(o)})
+               if (hard(i) or spec_on_impl(rows[i])) and starved(i)]
+        if not sus or len(sus) > 60:
+            break
+        time.sleep(1.0)
+        saved = {i: rows[i] for i in sus}
+        for i in sus:
+            rows[i] = stretch(stretch_base.setdefault(i, saved[i]), k)
+        if not redo(sus, "%s_stretch%d" % (tag, k), 2):
+            for i in sus:
+                rows[i] = saved[i]
+            break
+        ctx.info.append("%d cases that ended with a timeout under CPU starvation were run again with timing x%d" % (
+            len(sus), k))
+    # What is left and is about a DURATION only (outcome, greeting, record all agree; or only the property's time bound is
+    # exceeded): under CPU starvation such a measurement says nothing.  Re-run these few cases up to three more times, two
+    # at a time, pausing while the measured scheduling jitter is high; a mismatch counts only if it persists in a quiet
+    # window (jitter <= LOW_JITTER_MS) or exceeds the allowance by a wide margin (250 ms + 12 x jitter) every time.
+    def duration_only(i):
+        o = rows[i]
+        return o["obs"] < 98 and ((hard(i) == [4] and not spec_on_impl(o)) or (hard(i) in ([], [4]) and time_only(o)))
+
+    pending = [i for i in sorted(set(bad) | {i for i, o in enumerate(rows) if spec_on_impl(o)}) if duration_only(i)]
+    confirmed, wide = set(), {i: 0 for i in pending}
+    if 0 < len(pending) <= 60:
+        for rnd in range(3):
+            if not pending:
+                break
+            jit = max((rows[i].get("jitter_ms") or 0) for i in pending)
+            if jit > LOW_JITTER_MS:
+                time.sleep(min(4.0, 1.0 + jit / 50.0))
+            if not redo(pending, "%s_quiet%d" % (tag, rnd), 2):
+                break
+            still = [i for i in pending if hard(i) or spec_on_impl(rows[i])]
+            for i in still:
+                if not duration_only(i):
+                    confirmed.add(i)           # something else than a duration is wrong now: keep it
+                elif (rows[i].get("jitter_ms") or 0) <= LOW_JITTER_MS:
+                    confirmed.add(i)           # persists in a quiet window
+            # wide-margin test for the rest
+            rest = [i for i in still if i not in confirmed]
+            if rest:
+                EXTRA_SLACK[0] = 250 + int(9 * max((rows[i].get("jitter_ms") or 0) for i in rest))
+                try:
+                    sub = evaluate(ctx, [rows[i] for i in rest], "%s_wide%d" % (tag, rnd), 2)
+                finally:
+                    EXTRA_SLACK[0] = 0
+                for k, i in enumerate(rest):
+                    o = rows[i]
+                    b = time_bound(o)
+                    over_bound = b is not None and o["dur_ms"] > b + SLACK_MS + 250 + 4 * jitter_slack(o)
+                    if 4 in sub.get(k, []) or over_bound:
+                        wide[i] += 1
+            pending = [i for i in still if i not in confirmed]
+        for i in pending:
+            if wide.get(i, 0) >= 3:
+                confirmed.add(i)
+        dropped = [i for i in pending if i not in confirmed]
+        for i in dropped:
+            bad.pop(i, None)
+            rows[i]["inconclusive"] = True
+        if dropped:
+            ctx.info.append("%d duration comparisons were inconclusive because of CPU starvation (scheduling jitter up to "
+                            "%.0f ms in every re-run) and are not counted: cases %s" % (
+                                len(dropped), max((rows[i].get("jitter_ms") or 0) for i in dropped),
+                                [rows[i]["id"] for i in dropped][:10]))
+    return rows, {i: hard(i) for i in bad if hard(i)}, sum(1 for cs in bad.values() if 105 in cs)
 
 
 def run(ctx):
@@ -454,7 +569,7 @@ def run(ctx):
             ctx.broken.append(("correspondence: harness could not run case %d (%s)" % (o["id"], o["err"]), ""))
             continue
         why = spec_on_impl(o)
-        if why:
+        if why and not (o.get("inconclusive") and time_only(o)):
             report(ctx, o, why)
     for i, codes in sorted(hard.items())[:20]:
         o = rows[i]
